@@ -236,6 +236,121 @@ def SessionParameters_PRESERVE : Nat := 1
 def SessionParameters_RIB_ACK : Nat := 0
 def SessionParameters_RIB_AND_FIB_ACK : Nat := 1
 
+
+/-! ## the client (client/gribiclient.go) -/
+
+/-- wire numbers of `spb.AFTResult_Status` -/
+def AFTResult_UNSET : Nat := 0
+def AFTResult_FAILED : Nat := 1
+def AFTResult_RIB_PROGRAMMED : Nat := 2
+def AFTResult_FIB_PROGRAMMED : Nat := 3
+def AFTResult_FIB_FAILED : Nat := 4
+
+structure IPv4EntryC where
+  Prefix : String
+  deriving DecidableEq, Repr, Inhabited
+
+structure IPv6EntryC where
+  Prefix : String
+  deriving DecidableEq, Repr, Inhabited
+
+structure LabelEntryC where
+  /-- `GetLabelUint64()` -/
+  LabelUint64 : Nat
+  deriving DecidableEq, Repr, Inhabited
+
+structure NHGEntryC where
+  Id : Nat
+  deriving DecidableEq, Repr, Inhabited
+
+structure NHEntryC where
+  Index : Nat
+  deriving DecidableEq, Repr, Inhabited
+
+/-- the `entry` oneof of `spb.AFTOperation` (the wrapped message pointer may be nil) -/
+inductive AFTEntry where
+  | Ipv4 (Ipv4 : Option IPv4EntryC)
+  | Ipv6 (Ipv6 : Option IPv6EntryC)
+  | Mpls (Mpls : Option LabelEntryC)
+  | NextHopGroup (NextHopGroup : Option NHGEntryC)
+  | NextHop (NextHop : Option NHEntryC)
+  deriving DecidableEq, Repr, Inhabited
+
+/-- `spb.AFTOperation` as the client looks at it -/
+structure AFTOperationC where
+  Id : Nat
+  Op : Nat
+  Entry : Option AFTEntry
+  deriving DecidableEq, Repr, Inhabited
+
+/-- `spb.ModifyRequest` as the client's accounting looks at it -/
+structure ModifyRequestC where
+  Operation : List AFTOperationC
+  ElectionId : Option U128
+  Params : Option SessionParameters
+  deriving DecidableEq, Repr, Inhabited
+
+structure AFTErrorDetails where
+  ErrorMessage : String
+  deriving DecidableEq, Repr, Inhabited
+
+/-- `spb.AFTResult` -/
+structure AFTResultC where
+  Id : Nat
+  Status : Nat
+  ErrorDetails : Option AFTErrorDetails
+  deriving DecidableEq, Repr, Inhabited
+
+structure SessionParametersResult where
+  Status : Nat
+  deriving DecidableEq, Repr, Inhabited
+
+/-- `spb.ModifyResponse` as the client looks at it; `Result` is a slice that may be nil -/
+structure ModifyResponseC where
+  Result : Option (List AFTResultC)
+  ElectionId : Option U128
+  SessionParamsResult : Option SessionParametersResult
+  deriving DecidableEq, Repr, Inhabited
+
+/-- `client.PendingOp` (`Op` is never nil: `addPendingOp` has dereferenced it) -/
+structure PendingOp where
+  Timestamp : Int
+  Op : AFTOperationC
+  deriving DecidableEq, Repr, Inhabited
+
+structure ElectionReqDetails where
+  Timestamp : Int
+  ID : Option U128
+  deriving DecidableEq, Repr, Inhabited
+
+structure SessionParamReqDetails where
+  Timestamp : Int
+  Outgoing : Option SessionParameters
+  deriving DecidableEq, Repr, Inhabited
+
+/-- `client.OpDetailsResults` -/
+structure OpDetailsResults where
+  Type_ : Nat
+  NextHopIndex : Nat
+  NextHopGroupID : Nat
+  IPv4Prefix : String
+  IPv6Prefix : String
+  MPLSLabel : Nat
+  deriving DecidableEq, Repr, Inhabited
+
+/-- `client.OpResult` -/
+structure COpResult where
+  Timestamp : Int
+  Latency : Int
+  CurrentServerElectionID : Option U128
+  SessionParameters : Option SessionParametersResult
+  OperationID : Nat
+  ClientError : String
+  ServerError : String
+  ProgrammingResult : Nat
+  Details : Option OpDetailsResults
+  deriving DecidableEq, Repr, Inhabited
+
 /-- the error of a Go `(pointer, error)` result pair of which exactly one is nil -/
 def errOf {α : Type} (p : Option α) (e : Status) : Option Status :=
   match p with
